@@ -454,7 +454,13 @@ class HelicityAmplitudeBuilder:
 
         amplitude = self.config.spin_alignment.formulate_amplitude(self.reaction)
         spin_projections = collect_spin_projections(self.reaction)
-        return PoolSum(sp.Abs(amplitude) ** 2, *spin_projections.items())
+        intensity = PoolSum(sp.Abs(amplitude) ** 2, *spin_projections.items())
+        # helicity combinations of the outer states for which no transition exists
+        # do not contribute: their amplitude is zero
+        for symbol in intensity.evaluate().atoms(sp.Indexed):
+            if symbol not in self.__ingredients.amplitudes:
+                self.__ingredients.amplitudes[symbol] = sp.S.Zero
+        return intensity
 
     def __register_amplitudes(self, transition_group: list[StateTransition]) -> None:
         transition_by_topology = group_by_topology(transition_group)
